@@ -104,6 +104,14 @@ theorem safe_forms_same_slots : allSafeMacros.all (fun m =>
     (safeArmOf m .xconst).slots.map (fun s => (s.label, s.args)) == (safeArmOf m .xany).slots.map (fun s => (s.label, s.args))) = true := by
   decide +kernel
 
+/-- **C12 (safe API, nothing else happens).** In both forms of every safe wrapper macro the function body is exactly its
+assertions followed by the dispatch: no other statement (an early return for some `cfg`, a special case for some value)
+sits in one form and not in the other — there is none in either — and no assertion comes after the dispatch. -/
+theorem safe_forms_are_plain : allSafeMacros.all (fun m =>
+    (safeArmOf m .xconst).otherStmts == 0 && (safeArmOf m .xany).otherStmts == 0
+    && (safeArmOf m .xconst).assertsAfterDispatch == 0 && (safeArmOf m .xany).assertsAfterDispatch == 0) = true := by
+  decide +kernel
+
 /-- non-vacuity: the vertical wrappers do assert something, and the hypothesis is satisfiable -/
 example : (safeArmOf .export_safe_vertical_op .xconst).asserts.length = 3 ∧
     assertsPass (fun _ => 5) 5 (safeArmOf .export_safe_vertical_op .xany).asserts = true := by decide
